@@ -147,7 +147,7 @@ def run(ctx: Ctx) -> None:
             others = tuple(sorted(zip(_items(s["cl"]), _items(s["h"]))))
         return (move, others, s["mx"], len(s["serving"]), len(s["backlog"]))
 
-    paths = g.edge_cover_paths(ctx.rng, max_paths=300 if ctx.quick else 4000, key=key, max_len=200)
+    paths = g.edge_cover_paths(ctx.rng, max_paths=220 if ctx.quick else 4000, key=key, max_len=200)
     ctx.extra["schedules_from_edge_cover"] = len(paths)
     ctx.extra["edge_classes"] = len({key(g.state(u), lab, g.state(v)) for u, es in g.out.items() for lab, v in es})
     if not ctx.quick:
